@@ -33,6 +33,7 @@ type caseC16 struct {
 	S      []string   `json:"scalars"`  // shared scalars (canonical hex)
 	Msg    string     `json:"msg"`
 	Dst    string     `json:"dst"`
+	Dst2   string     `json:"dst2,omitempty"` // a second shared DST (hashing calls with odd J use it)
 	MsgLay gen.Layout `json:"msg_layout"`
 	DstLay gen.Layout `json:"dst_layout"`
 	Calls  []call     `json:"calls"`
@@ -54,6 +55,7 @@ type env struct {
 	E        []*secp256k1.Element
 	S        []*secp256k1.Scalar
 	msg, dst []byte
+	dst2     []byte
 	encE     [][]byte // shared encodings of the shared elements
 	uncE     [][]byte
 	encS     [][]byte
@@ -84,6 +86,12 @@ func buildEnv(c caseC16) (*env, error) {
 	ev.msg, mb = gen.Place(gen.HexBytes(c.Msg), c.MsgLay)
 	ev.dst, db = gen.Place(gen.HexBytes(c.Dst), c.DstLay)
 	ev.backings = [][]byte{mb, db}
+	ev.dst2 = ev.dst
+	if c.Dst2 != "" {
+		var db2 []byte
+		ev.dst2, db2 = gen.Place(gen.HexBytes(c.Dst2), c.DstLay)
+		ev.backings = append(ev.backings, db2)
+	}
 	for _, b := range ev.backings {
 		ev.snaps = append(ev.snaps, append([]byte(nil), b...))
 	}
@@ -97,13 +105,17 @@ func (ev *env) run(c call) []byte {
 	ei := ev.E[c.I%len(ev.E)]
 	si := ev.S[c.I%len(ev.S)]
 	sj := ev.S[c.J%len(ev.S)]
+	dst := ev.dst
+	if c.J%2 == 1 {
+		dst = ev.dst2
+	}
 	switch c.Fn {
 	case "HashToGroup":
-		return secp256k1.HashToGroup(ev.msg, ev.dst).Encode()
+		return secp256k1.HashToGroup(ev.msg, dst).Encode()
 	case "EncodeToGroup":
-		return secp256k1.EncodeToGroup(ev.msg, ev.dst).Encode()
+		return secp256k1.EncodeToGroup(ev.msg, dst).Encode()
 	case "HashToScalar":
-		return secp256k1.HashToScalar(ev.msg, ev.dst).Encode()
+		return secp256k1.HashToScalar(ev.msg, dst).Encode()
 	case "E.Add":
 		return e.Add(ei).Encode()
 	case "E.Subtract":
@@ -191,6 +203,7 @@ func runC16(c caseC16, o *gen.Obs) error {
 		}
 	}
 	o.ClassIf(hashers > 0 && c.DstLay.Post > 0 && len(c.Order) >= 2, "shared-spare-capacity-dst")
+	o.ClassIf(hashers >= 2 && len(c.Dst) > 510 && len(c.Dst2) > 510 && c.Dst != c.Dst2, "two-oversize-dsts")
 	o.ClassIf(len(c.Order) >= 2, "goroutines>=2")
 	o.NonTrivialIf(len(c.Order) >= 2 && len(c.Calls) > 0)
 	got := make([][][]byte, len(c.Order))
@@ -246,6 +259,10 @@ var c16 = gen.Register(&gen.Check[caseC16]{
 		c.Msg = hex.EncodeToString(gen.Bytes(0, 100).Draw(t, "msg"))
 		dl := rapid.SampledFrom([]int{16, 20, 255, 256, 300, 1}).Draw(t, "dlen")
 		c.Dst = hex.EncodeToString(rapid.SliceOfN(rapid.Byte(), dl, dl).Draw(t, "dst"))
+		if gen.Chance(t, "twoDsts", 2, 3) {
+			dl2 := rapid.SampledFrom([]int{300, 256, 16, 1000, 257}).Draw(t, "dlen2")
+			c.Dst2 = hex.EncodeToString(rapid.SliceOfN(rapid.Byte(), dl2, dl2).Draw(t, "dst2"))
+		}
 		n := 2 + gen.Pick(t, "ncalls", 9)
 		for i := 0; i < n; i++ {
 			c.Calls = append(c.Calls, call{Fn: callFns[gen.Pick(t, "fn", len(callFns))], I: rapid.IntRange(0, 1).Draw(t, "i"), J: rapid.IntRange(0, 1).Draw(t, "j"),
@@ -266,6 +283,11 @@ var c16 = gen.Register(&gen.Check[caseC16]{
 					DstLay: gen.Layout{Pre: 1, Post: 7}, Calls: []call{{Fn: fn}}, Order: [][]int{{0}, {0}, {0}, {0}}})
 			}
 		}
+		for _, fn := range []string{"HashToGroup", "EncodeToGroup", "HashToScalar"} {
+			out = append(out, caseC16{E: []pt.Spec{g, g}, S: []string{"05", "07"}, Msg: "616263", Dst: hex.EncodeToString(bytes.Repeat([]byte{'A'}, 300)),
+				Dst2: hex.EncodeToString(bytes.Repeat([]byte{'B'}, 300)), Calls: []call{{Fn: fn, J: 0}, {Fn: fn, J: 1}, {Fn: fn, J: 0}, {Fn: fn, J: 1}},
+				Order: [][]int{{0, 1, 2, 3}, {1, 0, 3, 2}, {2, 3, 0, 1}, {3, 2, 1, 0}}})
+		}
 		all := caseC16{E: []pt.Spec{g, {Base: pt.Base{Kind: "kg", K: 3}, Steps: []pt.Step{{Op: "dblsub"}}}}, S: []string{"05", gen.H(new(bigInt).Sub(ref.N, one))}, Msg: "00", Dst: hex.EncodeToString(bytes.Repeat([]byte{'x'}, 32)), DstLay: gen.Layout{Post: 1}}
 		var ord []int
 		for i, fn := range callFns[:24] {
@@ -279,7 +301,7 @@ var c16 = gen.Register(&gen.Check[caseC16]{
 		all.Order = [][]int{ord, rev, ord, rev}
 		return append(out, all)
 	},
-	Required: []string{"shared-spare-capacity-dst", "goroutines>=2", "call:HashToGroup", "call:HashToScalar", "call:E.Multiply"},
+	Required: []string{"two-oversize-dsts", "shared-spare-capacity-dst", "goroutines>=2", "call:HashToGroup", "call:HashToScalar", "call:E.Multiply"},
 	Run:      runC16,
 })
 
